@@ -546,12 +546,23 @@ fn run_history(seed_rng: &mut Rng, opts: &HistoryOpts, len: usize, model: &mut m
             wrote_since_read = true;
             let t = *r.pick(&["t0", "t1", "t2"]);
             let u = *r.pick(&["t0", "t1", "t2"]);
-            let s = match r.below(7) {
+            // keep tables small: INSERT … SELECT between tables would otherwise grow them
+            // geometrically (and push the engine onto its parallel paths)
+            let big = |c: &Cached, n: &str| c.db.scan(n).map(|v| v.len()).unwrap_or(0) > 12;
+            let choice = if big(&c, t) { 4 } else if big(&c, u) && r.chance(1, 2) { 0 } else { r.below(7) };
+            let s = match choice {
                 0 | 1 => format!("INSERT INTO {} VALUES ({}, '{}')", t, r.range(1, 5), r.pick(LITS)),
                 2 => format!("UPDATE {} SET a = a + 1 WHERE a = {}", t, r.range(1, 4)),
                 3 => format!("UPDATE {} SET b = '{}' WHERE a IN (SELECT a FROM {})", t, r.pick(LITS), u),
-                4 => format!("DELETE FROM {} WHERE a = {}", t, r.range(1, 5)),
-                5 => format!("INSERT INTO {} SELECT a + 1, b FROM {}", t, u),
+                4 => {
+                    if big(&c, t) {
+                        format!("DELETE FROM {} WHERE a >= {}", t, r.range(1, 3))
+                    } else {
+                        format!("DELETE FROM {} WHERE a = {}", t, r.range(1, 5))
+                    }
+                }
+                5 if !big(&c, u) => format!("INSERT INTO {} SELECT a + 1, b FROM {}", t, u),
+                5 => format!("INSERT INTO {} VALUES ({}, '{}')", t, r.range(1, 5), r.pick(LITS)),
                 _ => format!("insert into {} values ({}, '{}')", t.to_uppercase(), r.range(1, 5), r.pick(LITS)),
             };
             let (a, b) = c.write(&s, vec![]);
@@ -1283,7 +1294,11 @@ fn main() {
         };
         rep.count(class);
         let len = if args.quick() { 40 } else { 80 };
+        let th = std::time::Instant::now();
         run_history(&mut rng, &opts, len, &mut model, &mut rep, &format!("h{}", i));
+        if th.elapsed().as_secs_f64() > 1.5 {
+            eprintln!("[c25] slow history h{} ({}) {:?}", i, class, th.elapsed());
+        }
         if i == 0 {
             rep.sample(serde_json::json!({"kind": "history", "class": class, "length": len}));
         }
